@@ -105,6 +105,7 @@ Definition answer_query (s : State) (q : list Z) : option (list Z) :=
   | [3; del] => Some (flat_unb (q_unbondings_by_delegator s del))
   | [4; del; dn] => Some (flat_red (q_redelegations s del dn))
   | [5; del] => Some (flat_red (q_redelegations_by_delegator s del))
-  | [6; del; v; dn] => Some [reported s del v dn]
+  (* sdk.NewCoin panics on a negative amount: the handler does not answer (-1) *)
+  | [6; del; v; dn] => let r := reported s del v dn in Some [if r <? 0 then -1 else r]
   | _ => None
   end.
